@@ -181,6 +181,12 @@ func (v *FnVC) init(key string) string {
 	n := "|" + sanitize(key) + "@0|"
 	v.declare(n, v.heapSort(key))
 	v.initial[key] = n
+	if t, ok := v.w.heapTypes[key]; ok && (strings.HasPrefix(key, "F|") || strings.HasPrefix(key, "C|")) {
+		if r := v.rangeOf("(select "+n+" r!)", t); r != "true" {
+			// type invariant of the initial heap: every stored value is in the range of its type
+			fmt.Fprintf(&v.body, "(assert (forall ((r! Int)) (! %s :pattern ((select %s r!)))))\n", r, n)
+		}
+	}
 	return n
 }
 
@@ -796,6 +802,14 @@ func (v *FnVC) translateAll() {
 			v.assume(t)
 		}
 	}
+	for _, ri := range v.fc.ReplayInputs {
+		e, err := ParseExpr(ri[1])
+		if err != nil {
+			panic(specError{"replay-input " + ri[0] + ": " + err.Error()})
+		}
+		t := v.specTerm(e, v.initEnv, nil)
+		v.modelVs = append(v.modelVs, ModelVar{ri[0], v.define("ri", v.sortOf(t.T), t.S), "int"})
+	}
 	v.entryAssumes = append([]string{}, bi.assumes...)
 	if !v.dry {
 		// vacuity: the precondition must be satisfiable
@@ -803,6 +817,18 @@ func (v *FnVC) translateAll() {
 	}
 	for _, b := range v.order() {
 		v.translateBlock(b)
+	}
+	// axioms of spec functions (closed formulas, assumed globally)
+	if !v.dry {
+		env := v.newEnv(State{}, nil)
+		env.callee = true
+		for _, ax := range v.w.cs.Axioms {
+			if p := v.w.pkgByPath(ax.Pkg); p != nil {
+				env.pkg = p
+			}
+			t := v.specBoolE(ax.E, env, &Clause{Text: ax.Text, File: "axiom " + ax.Name})
+			fmt.Fprintf(&v.body, "(assert %s) ; axiom %s\n", t, ax.Name)
+		}
 	}
 }
 
@@ -1113,26 +1139,43 @@ func (v *FnVC) backOrdinal(l *loopInfo, from *ssa.BasicBlock) int {
 	return 0
 }
 
-// flatten splits an expression into atomic conjuncts, expanding calls of
-// predicates whose body is a conjunction (one query per conjunct).
+// flatten splits an expression into atomic conjuncts: top-level &&, calls of
+// predicates whose body is a conjunction, and conjunctions in the consequent of
+// an implication or under a universal quantifier (one query per conjunct).
 func (v *FnVC) flatten(e Expr) []Expr {
-	var out []Expr
-	for _, c := range conjuncts(e) {
-		if call, ok := c.(*CallE); ok {
-			if sf, ok := v.w.cs.Specs[call.Fun]; ok && sf.Body != nil && !sf.Opaque && len(call.Args) == len(sf.Params) {
-				if b, ok := sf.Body.(*Binary); ok && b.Op == "&&" {
-					m := map[string]Expr{}
-					for i, p := range sf.Params {
-						m[p.Name] = call.Args[i]
-					}
-					out = append(out, v.flatten(subst(sf.Body, m))...)
-					continue
-				}
+	switch x := e.(type) {
+	case *Binary:
+		switch x.Op {
+		case "&&":
+			return append(v.flatten(x.X), v.flatten(x.Y)...)
+		case "==>":
+			var out []Expr
+			for _, c := range v.flatten(x.Y) {
+				out = append(out, &Binary{"==>", x.X, c})
+			}
+			return out
+		}
+	case *Quant:
+		if x.Forall {
+			var out []Expr
+			for _, c := range v.flatten(x.Body) {
+				out = append(out, &Quant{true, x.Vars, c})
+			}
+			return out
+		}
+	case *CallE:
+		if sf, ok := v.w.cs.Specs[x.Fun]; ok && sf.Body != nil && !sf.Opaque && len(x.Args) == len(sf.Params) {
+			m := map[string]Expr{}
+			for i, p := range sf.Params {
+				m[p.Name] = x.Args[i]
+			}
+			parts := v.flatten(subst(sf.Body, m))
+			if len(parts) > 1 {
+				return parts
 			}
 		}
-		out = append(out, c)
 	}
-	return out
+	return []Expr{e}
 }
 
 // pointVars: parameters plus the scalar source variables live at the current point.
